@@ -1,5 +1,130 @@
 import SuppModel.Drv.Util
+import SuppModel.Lint.Spec
+
+/-! Driver front-end of the Lint family (C10): (de)serialises an abstract analysed module and calls
+    `lintModel` and the decidable hypotheses of the C10 theorems -- the very definitions the theorems are about. -/
 namespace SuppModel.Drv.Lint
-open Lean SuppModel.Drv
-def handle (_j : Json) : Json := errJson "driver for Lint not built yet"
+open Lean SuppModel.Drv SuppModel.Lint
+
+def jbool (j : Json) (k : String) : Except String Bool := j.getObjValAs? Bool k
+
+def pairOf (j : Json) (k : String) : Except String (Int × Int) := do
+  let a ← jarr j k
+  if a.size ≠ 2 then throw s!"{k}: not a pair"
+  let x ← a[0]!.getInt?
+  let y ← a[1]!.getInt?
+  pure (x, y)
+
+def optNat (j : Json) (k : String) : Except String (Option Nat) := do
+  let v ← j.getObjVal? k
+  match v with
+  | .null => pure none
+  | _ => do let n ← v.getNat?; pure (some n)
+
+def kindOf (j : Json) : Except String Kind := do
+  match ← jstr j "kind" with
+  | "assigned" => pure .assigned
+  | "argument" => pure .argument
+  | "funcdef" => pure .funcdef
+  | "classdef" => pure .classdef
+  | "imported" => do
+    let m ← jstr j "module"
+    let s ← jbool j "star"
+    let q ← jbool j "qualified"
+    pure (.imported m s q)
+  | k => throw s!"kind {k}"
+
+def scopeKindOf (s : String) : Except String ScopeKind :=
+  match s with
+  | "module" => pure .module
+  | "class" => pure .cls
+  | "function" => pure .function
+  | "lambda" => pure .lambda
+  | k => throw s!"scope kind {k}"
+
+def bindingOf (j : Json) : Except String Binding := do
+  let id ← jnat j "id"
+  let name ← jstr j "name"
+  let kind ← kindOf j
+  let sk ← (jstr j "sk").bind scopeKindOf
+  let scope ← jnat j "scope"
+  let pc ← jbool j "pc"
+  let d ← pairOf j "d"
+  let loc ← pairOf j "loc"
+  pure ⟨id, name, kind, sk, scope, pc, d, loc⟩
+
+def entryOf (j : Json) : Except String Entry := do
+  if let .ok s := j.getObjVal? "s" then
+    let id ← optNat s "id"
+    let name ← jstr s "name"
+    let z ← jbool s "z"
+    let scope ← optNat s "scope"
+    let q ← jbool s "q"
+    pure (.single ⟨id, name, z, scope, q⟩)
+  else if let .ok m := j.getObjVal? "m" then
+    let name ← jstr m "name"
+    let alts ← jarr m "alts"
+    let ids ← alts.toList.mapM (·.getNat?)
+    pure (.multi name ids)
+  else throw "entry"
+
+def readOf (j : Json) : Except String Read := do
+  let id ← jstr j "id"
+  let loc ← pairOf j "loc"
+  let f ← j.getObjVal? "flow"
+  match f with
+  | .null => pure ⟨id, loc, none⟩
+  | _ => do
+    let scope ← jnat f "scope"
+    let rows ← jarr f "table"
+    let table ← rows.toList.mapM fun row => do
+      let pr ← row.getArr?
+      if pr.size ≠ 2 then throw "table row"
+      let k ← pr[0]!.getStr?
+      let e ← entryOf pr[1]!
+      pure (k, e)
+    pure ⟨id, loc, some ⟨scope, table⟩⟩
+
+def moduleOf (j : Json) : Except String SuppModel.Lint.Module := do
+  let ns ← jarr j "names"
+  let rs ← jarr j "reads"
+  let allNames ← ns.toList.mapM bindingOf
+  let reads ← rs.toList.mapM readOf
+  pure ⟨allNames, reads⟩
+
+def diagJson (d : Diag) : Json :=
+  Json.arr #[Json.str d.code, Json.str d.message, toJson d.line, toJson d.col]
+
+def codeJson : Option Code → Json
+  | none => Json.null
+  | some c => Json.str c.str
+
+def handle (j : Json) : Json :=
+  match jstr j "op" with
+  | .ok "lint" =>
+    match moduleOf j with
+    | .error e => errJson e
+    | .ok m =>
+      let hyps : List (String × Json) := [
+        ("wellKeyed", Json.bool (decide (TableWellKeyed m))),
+        ("refsScoped", Json.bool (decide (RefsScoped m))),
+        ("noDup", Json.bool (decide (NoDupIds m))),
+        ("noMultiLocals", Json.bool (decide (NoMultiLocals m))),
+        -- per binding: is it never read (hypothesis of C10_never_read_unused), what does the sentence demand
+        ("neverRead", Json.arr (m.allNames.map fun b => Json.bool (decide (NeverRead m b))).toArray),
+        ("valid", Json.arr (m.allNames.map fun b => Json.bool (decide (specFactsOf b false).Valid)).toArray),
+        ("spec", Json.arr (m.allNames.map fun b => codeJson (spec (specFactsOf b false))).toArray)]
+      match lintModel m with
+      | .ok ds => Json.mkObj (("ok", Json.arr (ds.map diagJson).toArray) :: hyps)
+      | .error .attributeError => Json.mkObj (("err", Json.str "AttributeError") :: hyps)
+  | .ok "decide" =>
+    -- the generated chain on explicit atoms (order of the fields of `Facts`)
+    match (jarr j "f").bind (fun a => a.toList.mapM (·.getBool?)) with
+    | .ok [a, b, c, d, e, g, h, i, k] =>
+      match Generated.reportFull ⟨a, b, c, d, e, g, h, i, k⟩ with
+      | none => Json.mkObj [("ok", Json.null)]
+      | some (c, p) => Json.mkObj [("ok", Json.arr #[Json.str c.str, Json.str p])]
+    | _ => errJson "decide: nine booleans expected"
+  | _ => errJson "unknown lint op"
+
 end SuppModel.Drv.Lint
